@@ -616,6 +616,15 @@ def run(ck):
     proof_ok = ck.prove(THEOREMS)
 
     disagreements = {}
+    timing = ck.extra.setdefault("timing_s", {})
+    import time as _time
+    clock = [_time.time()]
+
+    def lap(name):
+        now = _time.time()
+        timing[name] = round(now - clock[0], 1)
+        clock[0] = now
+    lap("proof")
 
     def disagree(group, item):
         disagreements.setdefault(group, [])
@@ -648,6 +657,7 @@ def run(ck):
     for i in res["enc_agrees"]:
         disagree("Encoder.encode/decode", {"value": meta[i][0], "encode": meta[i][1], "decode": meta[i][2]})
 
+    lap("enc")
     # ------------------------------------------------------------------ txt
     cases, meta = [], []
     tpool = rng.sample(short, 500) + mid[:300] + longs[:200] + fixed
@@ -719,6 +729,7 @@ def run(ck):
                 disagree(group + " XML decoder vs expat", {k: meta[i][k] for k in ("value", "raw", "seen")})
         return res
 
+    lap("txt")
     # ------------------------------------------------------------------ ser (standalone Element)
     cases, meta = [], []
 
@@ -765,6 +776,7 @@ def run(ck):
     ck.sample({"group": "ser", "value": meta[2000]["value"], "raw": meta[2000]["raw"], "expat": meta[2000]["seen"]})
     eval_req("ser", cases, meta)
 
+    lap("ser")
     # ------------------------------------------------------------------ refit (PrefixNormalizer on standalone trees)
     cases, meta = [], []
     uris = ["urn:a", "urn:b", "urn:c", XSI, XSD, SOAPENV]
@@ -810,6 +822,7 @@ def run(ck):
         ck.count("refit")
     eval_req("refit", cases, meta)
 
+    lap("refit")
     # ------------------------------------------------------------------ req (operation arguments -> envelope)
     clients = Clients()
     cases, meta = [], []
@@ -861,6 +874,7 @@ def run(ck):
             ck.count("req-" + label)
     eval_req("req", cases, meta)
 
+    lap("req")
     # ------------------------------------------------------------------ rep (independent writer -> suds)
     cases, meta = [], []
     ppool = fixed + rng.sample(short, 500) + mid[:400] + longs[:700]
@@ -918,6 +932,7 @@ def run(ck):
         if i not in bad_spec:
             disagree("reply XML decoder vs expat", {k: meta[i][k] for k in ("value", "raw")})
 
+    lap("rep")
     # ------------------------------------------------------------------ tree
     cases, meta = [], []
     ntree = 3000 if thorough else 450
@@ -961,6 +976,7 @@ def run(ck):
         if i not in bad_spec or ENTITY_RE.search(meta[i]["tree"]):
             disagree("tree serialisation / parser", meta[i])
 
+    lap("tree")
     # ------------------------------------------------------------------ thorough: the full sweep named by the quantifier
     if thorough:
         sweep_python(ck, Element, Document)
